@@ -1006,7 +1006,10 @@ static C04Res c05Once(const Instance& I, const ParamSet& cfg, int loadMode, uint
       }
       double cond = dq(nb) * dq(ni);
       if(count) S.maxi("c05.max_condition_checked", cond <= 1e8 ? cond : 0);
-      if(cond > 1e8)
+      // the factorization works with absolute tolerances (zero, pivot and stability thresholds): the claim is judged for bases whose
+      // entries and whose inverse's entries are of moderate absolute size as well (a 1x1 basis [4e-11] is exactly regular and
+      // perfectly conditioned, and still legitimately refused)
+      if(cond > 1e8 || dq(nb) > 1e8 || dq(ni) > 1e8)
       {
          if(count) S.count("c05.skipped_ill_conditioned");
          return R;
